@@ -85,6 +85,8 @@ def _scan(trace, acc):
     """Accumulate event classes, covered lengths and the count of accepted short-key wrappings of one trace."""
     for line in open(trace):
         e = json.loads(line)
+        if "inIntact" not in e:
+            raise vlib.Infra("C08: event without inIntact: %s" % e["ev"])
         acc["classes"][(e["ev"], e.get("kind", "").split("#")[0].rstrip("0123456789"))] += 1
         if e["ev"] == "enc" or (e["ev"] == "wrap" and e["ok"]):
             acc["lens"].add(len(e["pt"]) // 2)
@@ -102,7 +104,7 @@ def _coverage(ctx, part, acc):
         for k in ("flip", "trunc", "adflip", "sivbit", "garbageR", "prefixswap", "exact", "bykey"):
             if c[("dec", k)] == 0:
                 raise vlib.Infra("C08 SIV: mutation class %s never executed" % k)
-        if c[("enc", "repeat")] == 0 or c[("enc", "walk")] == 0:
+        if c[("enc", "repeat")] == 0 or c[("enc", "walk")] == 0 or c[("enc", "enclosed-whole")] == 0:
             raise vlib.Infra("C08 SIV: no encryption repeated after buffer reuse / no length walk on one primitive")
         if c[("xorend", "")] == 0:
             raise vlib.Infra("C08 SIV: xorend routine never executed")
@@ -115,7 +117,7 @@ def _coverage(ctx, part, acc):
         for k in ("corrupt", "trunc", "forge-pad-nonzero", "forge-mli-wide", "garbage", "exact"):
             if c[("unwrap", k)] == 0:
                 raise vlib.Infra("C08 KWP: mutation class %s never executed" % k)
-        if c[("wrap", "repeat")] == 0 or c[("wrap", "walk")] == 0:
+        if c[("wrap", "repeat")] == 0 or c[("wrap", "walk")] == 0 or c[("wrap", "enclosed-whole")] == 0:
             raise vlib.Infra("C08 KWP: no wrap repeated after buffer reuse / scribbling")
         ctx.cov["kwp_unwrap_accepts_rfc_valid_wrappings_of_keys_shorter_than_16"] = acc["short"]
     ctx.cov.setdefault("event_classes", {}).update({"%s:%s" % k: v for k, v in sorted(c.items())})
@@ -135,7 +137,9 @@ def run(ctx):
                           "constructor and call; inputs are logged from pristine copies, outputs after the scribble; the earliest "
                           "calls of every primitive are repeated at the end of its life (kind=repeat), and every primitive is walked "
                           "through the plaintext / AD / payload length classes growing, shrinking to empty and growing again "
-                          "(kind=walk), each call its own judged event")
+                          "(kind=walk), each call its own judged event; every input has sentinel-filled spare capacity and guard zones "
+                          "and the trace spec judges inIntact (input, spare capacity, guards unchanged) with the value; enclosing-"
+                          "buffer sequence buf[:n] then buf[:n+k] without rewriting (kind=enclosed-*)")
     ctx.assumptions += ["AES block cipher is the JDK's (independent of Go's standard library)",
                         "KWP payloads longer than 520 octets are judged by the JDK's AES/KWP unless sampled as 'deep' "
                         "(then the TLA+ W must also equal the JDK)",
